@@ -947,10 +947,12 @@ class Exec:
                 "services": sorted(w.cfg["services"]),
                 "waiting": sorted(i.cid for i in w.live.values() if any(i.awaiting.values()))})
         self.res.steps += 1
-        if getattr(self, "stop_quietly", False) and not self.w.viol and not self.h.dead:
+        if getattr(self, "stop_quietly", False) and not self.h.dead:
             # an accidentally valid damaged file is now in force; the protocol
-            # model cannot follow arbitrary files: end the run cleanly here
-            self.do_eof()
+            # model cannot follow arbitrary files: end the run here (cleanly, unless
+            # a violation has been recorded already)
+            if not self.w.viol:
+                self.do_eof()
             return False
         if getattr(self, "nonstop", False):
             del self.w.viol[20:]
